@@ -362,10 +362,27 @@ IMPLS: Dict[str, Callable[..., Any]] = {
     # tells values apart that compare equal across types (1, 1.0, True)
     "typekey": lambda x: (type(x).__name__, x),
     "const": lambda x: 0,
+    # ONE key object for every item that is not equal to itself (and not smaller either): comparisons of records that
+    # carry it fall through to the next field by IDENTITY, as tuple comparison does - first-come order decides
+    "samenan": lambda x: _SAME_NAN,
+    "selfunequal": lambda x: _SELF_UNEQUAL,
     "failkey": _failkey,
     "keyitem": lambda x: Item(_k(x) // 2, ("key", _uid(x))),
     "nullary": lambda: None,  # replaced per run by the iter(callable, sentinel) feeder
 }
+
+
+class _SelfUnequal:
+    __hash__ = None  # type: ignore
+
+    def __eq__(self, other): return False
+    def __lt__(self, other): return False
+    def __gt__(self, other): return False
+    def __repr__(self): return "<never-equal key>"
+
+
+_SAME_NAN = float("nan")
+_SELF_UNEQUAL = _SelfUnequal()
 
 
 # ---------------------------------------------------------------------------
